@@ -8,7 +8,7 @@ import z3
 
 from .source import Repo
 from .interp import Engine, Config, OutOfReach
-from .contract import verify_run
+from .contract import verify_run, case_coverage_run
 from .solve import run_cvc5
 from . import models_calls
 from .concretize import concretize_inputs
@@ -23,7 +23,16 @@ def discharge(ob, timeout_ms, use_cvc5=True):
     for f in ob.pc:
         s.add(f)
     s.add(z3.Not(ob.goal))
-    r = s.check()
+    # hard wall-clock guard: z3 does not always honour its own timeout inside quantifier instantiation
+    import threading
+    timer = threading.Timer(timeout_ms / 1000.0 + 2.0, s.ctx.interrupt)
+    timer.start()
+    try:
+        r = s.check()
+    except z3.Z3Exception:
+        r = z3.unknown
+    finally:
+        timer.cancel()
     backend = 'z3'
     model = None
     reason = ''
@@ -31,9 +40,13 @@ def discharge(ob, timeout_ms, use_cvc5=True):
     if r == z3.sat:
         model = s.model()
     elif r == z3.unknown:
-        reason = s.reason_unknown()
-        if use_cvc5:
-            r5, out = run_cvc5(s.to_smt2(), timeout_ms)
+        try:
+            reason = s.reason_unknown()
+        except z3.Z3Exception:
+            reason = 'interrupted'
+        text = s.to_smt2() if use_cvc5 else ''
+        if use_cvc5 and '(lambda' not in text:
+            r5, out = run_cvc5(text, timeout_ms)
             if r5 == 'unsat':
                 verdict, backend = 'unsat', 'cvc5'
             elif r5 == 'sat':
@@ -44,17 +57,22 @@ def discharge(ob, timeout_ms, use_cvc5=True):
     return verdict, backend, time.time() - t0, model, reason
 
 
-def verify_contract(contract, cfg, timeout_ms=None, max_paths=4000):
-    """Returns a JSON-able report for one function under contract."""
+def verify_contract(contract, cfg, timeout_ms=None, max_paths=6000, case=None):
+    """Returns a JSON-able report for one function under contract (or one case of its case split; case == 'coverage'
+    checks that the split is exhaustive)."""
     timeout_ms = timeout_ms or Z3_TIMEOUT_MS
     t0 = time.time()
     repo = Repo()
     models_calls.TRUSTED.clear()
     engine = Engine(repo, cfg)
-    report = {'function': contract.qual, 'obligations': [], 'paths': 0, 'out_of_reach': None, 'bounded': False,
-              'path_kinds': {}}
+    label = '' if case is None else ('#' + (case if isinstance(case, str) else case[0]))
+    report = {'function': contract.qual, 'case': label, 'obligations': [], 'paths': 0, 'out_of_reach': None,
+              'bounded': False, 'path_kinds': {}}
     try:
-        results = engine.explore(verify_run(contract), max_paths=max_paths)
+        if case == 'coverage':
+            results = engine.explore(case_coverage_run(contract), max_paths=max_paths)
+        else:
+            results = engine.explore(verify_run(contract, case), max_paths=max_paths)
     except OutOfReach as e:
         report['out_of_reach'] = str(e)
         report['wall_s'] = time.time() - t0
@@ -98,15 +116,72 @@ def verify_contract(contract, cfg, timeout_ms=None, max_paths=4000):
     return report
 
 
+CACHE_DIR = os.path.join(os.path.dirname(os.path.dirname(os.path.abspath(__file__))), '.cache')
+_TREE_KEY = None
+
+
+def tree_key():
+    """hash of everything a function report depends on: the repo sources and the verifier's own files"""
+    global _TREE_KEY
+    if _TREE_KEY is None:
+        import hashlib
+        h = hashlib.sha256()
+        root = os.path.dirname(os.path.dirname(os.path.abspath(__file__)))
+        files = []
+        for sub in ('pyvc', 'contracts', 'props', 'native'):
+            for dp, _, fns in os.walk(os.path.join(root, sub)):
+                files += [os.path.join(dp, f) for f in fns if f.endswith('.py')]
+        from .source import SRC_DIR
+        for dp, _, fns in os.walk(SRC_DIR):
+            files += [os.path.join(dp, f) for f in fns if f.endswith(('.py', '.bare'))]
+        for f in sorted(files):
+            h.update(f.encode())
+            with open(f, 'rb') as fh:
+                h.update(fh.read())
+        _TREE_KEY = h.hexdigest()
+    return _TREE_KEY
+
+
 def _job(args):
-    contract, cfg_factory, timeout_ms = args
+    contract, cfg_factory, timeout_ms, case = args
+    import hashlib
+    import json
+    label = 'none' if case is None else str(case)
+    key = hashlib.sha256(f'{tree_key()}|{contract.qual}|{label}|{timeout_ms}'.encode()).hexdigest()[:32]
+    path = os.path.join(CACHE_DIR, key + '.json')
+    use_cache = not os.environ.get('PYVC_NOCACHE')
+    if use_cache and os.path.exists(path):
+        try:
+            with open(path, 'r', encoding='utf-8') as fh:
+                rep = json.load(fh)
+            rep['cached'] = True
+            return rep
+        except (OSError, ValueError):
+            pass
     cfg = cfg_factory(contract)
-    return verify_contract(contract, cfg, timeout_ms)
+    if case is not None and case != 'coverage':
+        case = contract.cases()[case]
+    rep = verify_contract(contract, cfg, timeout_ms, case=case)
+    if use_cache and not rep.get('error'):
+        os.makedirs(CACHE_DIR, exist_ok=True)
+        tmp = path + f'.{os.getpid()}.tmp'
+        with open(tmp, 'w', encoding='utf-8') as fh:
+            json.dump(rep, fh, default=str)
+        os.replace(tmp, path)
+    return rep
 
 
 def verify_many(contracts, cfg_factory, timeout_ms=None, workers=None):
-    workers = workers or min(16, os.cpu_count() or 4, max(1, len(contracts)))
-    jobs = [(c, cfg_factory, timeout_ms) for c in contracts]
+    jobs = []
+    for c in contracts:
+        cases = c.cases() if hasattr(c, 'cases') else None
+        if cases:
+            jobs.append((c, cfg_factory, timeout_ms, 'coverage'))
+            for ix in range(len(cases)):
+                jobs.append((c, cfg_factory, timeout_ms, ix))
+        else:
+            jobs.append((c, cfg_factory, timeout_ms, None))
+    workers = workers or min(16, os.cpu_count() or 4, max(1, len(jobs)))
     if workers == 1:
         return [_job(j) for j in jobs]
     with mp.get_context('fork').Pool(workers) as pool:
